@@ -3,6 +3,7 @@ package value
 import (
 	"fmt"
 	"sync"
+	"sync/atomic"
 )
 
 var RWMutexClass *Class              // ::Std::Sync::RWMutex
@@ -10,7 +11,9 @@ var RWMutexUnlockedErrorClass *Class // ::Std::Sync::RWMutex::UnlockedError
 
 // Wraps a Go RWMutex.
 type RWMutex struct {
-	Native sync.RWMutex
+	Native  sync.RWMutex
+	writer  atomic.Bool  // true while locked for writing through Lock
+	readers atomic.Int64 // number of read locks taken through ReadLock
 }
 
 func NewRWMutex() *RWMutex {
@@ -55,29 +58,35 @@ func (*RWMutex) InstanceVariables() *InstanceVariables {
 
 func (m *RWMutex) Lock() {
 	m.Native.Lock()
+	m.writer.Store(true)
 }
 
 func (m *RWMutex) ReadLock() {
 	m.Native.RLock()
+	m.readers.Add(1)
 }
 
 func (m *RWMutex) Unlock() (err Value) {
-	defer func() {
-		if r := recover(); r != nil {
-			err = Ref(NewError(RWMutexUnlockedErrorClass, "a rwmutex that is unlocked for writing cannot be unlocked for writing"))
-		}
-	}()
+	// unlocking an unlocked sync.RWMutex is a fatal error that cannot be recovered,
+	// so the state is tracked explicitly
+	if !m.writer.CompareAndSwap(true, false) {
+		return Ref(NewError(RWMutexUnlockedErrorClass, "a rwmutex that is unlocked for writing cannot be unlocked for writing"))
+	}
 
 	m.Native.Unlock()
 	return Undefined
 }
 
 func (m *RWMutex) ReadUnlock() (err Value) {
-	defer func() {
-		if r := recover(); r != nil {
-			err = Ref(NewError(RWMutexUnlockedErrorClass, "a rwmutex that is unlocked for reading cannot be unlocked for reading"))
+	for {
+		n := m.readers.Load()
+		if n <= 0 {
+			return Ref(NewError(RWMutexUnlockedErrorClass, "a rwmutex that is unlocked for reading cannot be unlocked for reading"))
 		}
-	}()
+		if m.readers.CompareAndSwap(n, n-1) {
+			break
+		}
+	}
 
 	m.Native.RUnlock()
 	return Undefined
